@@ -599,6 +599,10 @@ type enumerator struct {
 	nAct     int
 	// pathSensitiveEvents: labels may depend on the path (they use ResolveOnPath)
 	pathSensitiveEvents bool
+	// startBlock/stopBlock (outermost activation only): walk one pass from
+	// startBlock; arriving at stopBlock again ends the path with term "back"
+	// (w.cur then holds the phi bindings of that arrival)
+	startBlock, stopBlock *ssa.BasicBlock
 }
 
 type pathState struct {
@@ -721,6 +725,11 @@ func (e *enumerator) walkFn(fn *ssa.Function, ev []string, depth int, k func(ev 
 			return
 		}
 		if from == 0 {
+			if depth == 0 && e.stopBlock == b && st.onPath[b] >= 1 {
+				e.w.cur = &pathCtxt{st: st, eval: e.eval}
+				k(ev, nil, "back")
+				return
+			}
 			if st.onPath[b] >= 2 {
 				k(ev, nil, "loop")
 				return
@@ -800,6 +809,10 @@ func (e *enumerator) walkFn(fn *ssa.Function, ev []string, depth int, k func(ev 
 				return
 			}
 		}
+	}
+	if depth == 0 && e.startBlock != nil {
+		walk(e.startBlock, 0, ev)
+		return
 	}
 	walk(fn.Blocks[0], 0, ev)
 }
